@@ -326,7 +326,7 @@ def make_tables(tr, offsets):
     return tb
 
 
-def build_movie(tracks, layout="moov_first", movie_ts=1000, extra_top=(), udta=None, mvex=None, base=0):
+def build_movie(tracks, layout="moov_first", movie_ts=1000, extra_top=(), udta=None, mvex=None, base=0, large_mdat=False):
     """returns (Rendered, tracks with 'tables' and 'offsets' filled in, mdat payload offset)"""
     # chunk order: round robin over tracks
     order = []
@@ -374,13 +374,13 @@ def build_movie(tracks, layout="moov_first", movie_ts=1000, extra_top=(), udta=N
     head = render([f] + list(extra_top))
     if layout == "moov_first":
         moov_len = len(render([moov0]).data)
-        pstart = base + len(head.data) + moov_len + 8
+        pstart = base + len(head.data) + moov_len + (16 if large_mdat else 8)
         offs, payload = assemble(pstart)
-        nodes = [f] + list(extra_top) + [moov_for(offs), Box("mdat", [Raw(payload)])]
+        nodes = [f] + list(extra_top) + [moov_for(offs), Box("mdat", [Raw(payload)], large=large_mdat)]
     else:
-        pstart = base + len(head.data) + 8
+        pstart = base + len(head.data) + (16 if large_mdat else 8)
         offs, payload = assemble(pstart)
-        nodes = [f] + list(extra_top) + [Box("mdat", [Raw(payload)]), moov_for(offs)]
+        nodes = [f] + list(extra_top) + [Box("mdat", [Raw(payload)], large=large_mdat), moov_for(offs)]
     for t, o in zip(tracks, offs):
         t["offsets"] = o
     return render(nodes, base), tracks, nodes
@@ -551,7 +551,8 @@ def build_fragmented(tracks, fragments, movie_ts=1000, trex_dur=0, extra_between
         def make(offsets, bases, frag=frag, seq=seq):
             trafs = []
             for ti, tf in enumerate(frag):
-                kids = [tfhd(tf["track_id"], bases[ti] if tf.get("base", "moof") != "moof" else None, None, tf.get("tfhd_dur"))]
+                kids = [tfhd(tf["track_id"], bases[ti] if tf.get("base", "moof") != "moof" else None, None, tf.get("tfhd_dur"),
+                             extra_flags=TFHD_MOOF if tf.get("moof_flag") else 0)]
                 if tf.get("tfdt") is not None:
                     kids.append(tfdt(tf["tfdt"], tf.get("tfdt_v", 0)))
                 if tf.get("trun", True):
